@@ -152,6 +152,14 @@ pub fn check(case: &Case, ctx: &mut Ctx) {
     let mismatched = mismatched && !malformed;
     match case.shape {
         Shape::Ok => {}
+        // (odd seeds: the record keeps the envelope of its own kind — with the payment proof on the
+        // client path, so all eight kind tags occur — and is padded past the limit, as a sender who wants
+        // to get around a per-kind size check would do)
+        // Only on the kad-put path, where the store's entrance measures the value as presented; the other
+        // two paths are reached through request/response messages, which the transport bounds, and what
+        // they store is the re-encoded object (measured in put_verified): there the oversized OBJECT is used.
+        Shape::Oversized if case.seed % 2 == 1 && case.path == Path::ClientPut => rec.value.resize(5 * 1024 * 1024 + 16, 0),
+        Shape::ExactlyAtSizeLimit if case.seed % 2 == 1 && case.path == Path::ClientPut => rec.value.resize(5 * 1024 * 1024, 0),
         Shape::Oversized => {
             let c = fix::chunk(9, 5 * 1024 * 1024 + 16);
             rec = fix::chunk_record(&c);
